@@ -19,7 +19,7 @@ EXPLANATION = ("Deductive: mix_values, D2O_sld, D2O_match and fasta.D2Omatch are
 
 
 def units(tier):
-    return (([N.U_MIX_VALUES, N.U_D2O_SLD, N.U_D2O_MATCH, N.L_SUBSTITUTION_LINEAR, N.U_FASTA_MATCH, N.U_FASTA_D2OSLD, F.U_SUBSTITUTION] + N.U_D2O_SLDS) + FA.U_MOLECULE_INIT + W.U_FORMULA_REPLACE) + [K.L_ATOM_IDENTITY]
+    return ((([N.U_MIX_VALUES, N.U_D2O_SLD, N.U_D2O_MATCH, N.L_SUBSTITUTION_LINEAR, N.U_FASTA_MATCH, N.U_FASTA_D2OSLD, F.U_SUBSTITUTION] + N.U_D2O_SLDS) + FA.U_MOLECULE_INIT + W.U_FORMULA_REPLACE) + [K.L_ATOM_IDENTITY]) + F.U_FORMULA_OF_FORMULA + F.U_INIT
 
 
 def runner_tasks(tier):
